@@ -103,16 +103,33 @@ func checkC06(w *World, r *Report) {
 		if outLoop == nil || rowLoop == nil || !lessOK {
 			r.Undecided("C06.O-PARITY", "flush loops", w.pos(fi.Fn.Pos()), "output loop / per-bar row loop not identified")
 		} else {
-			co, cr := classifyCountingLoop(outLoop), classifyCountingLoop(rowLoop)
 			bad := ""
-			if !co.ok || !cr.ok {
-				bad = "the row loops are not simple counting loops"
-			} else {
-				if greaterFirst != co.desc {
-					bad = fmt.Sprintf("orientation parity broken: heap pops the %s priority first but the output loop is %s - bars would appear in decreasing priority (bottom-up)", map[bool]string{true: "greater", false: "smaller"}[greaterFirst], map[bool]string{true: "reversed", false: "forward"}[co.desc])
+			// direction in which each loop walks its slice (index grows or shrinks from iteration to iteration)
+			var frameRows ssa.Value
+			for b := range rowLoop.Blocks {
+				for _, in := range b.Instrs {
+					if ia, ok := in.(*ssa.IndexAddr); ok && isLoad(Val{V: ia.X}, tFrame, "rows") {
+						frameRows = ia.X
+					}
 				}
-				if cr.desc != co.desc {
+			}
+			wo := w.loopIndexWalk(outLoop, fi.RowsPhi)
+			wr := indexWalk{}
+			if frameRows != nil {
+				wr = w.loopIndexWalk(rowLoop, frameRows)
+			}
+			if !wo.OK || !wr.OK || fi.RowsPhi == nil {
+				bad = "the row loops do not walk their slices by a unit-step index (" + orStr(wo.Why, wr.Why) + ")"
+			} else {
+				outReversed, rowsReversed := !wo.Ascending, !wr.Ascending
+				if greaterFirst != outReversed {
+					bad = fmt.Sprintf("orientation parity broken: heap pops the %s priority first but the output loop is %s - bars would appear in decreasing priority (bottom-up)", map[bool]string{true: "greater", false: "smaller"}[greaterFirst], map[bool]string{true: "reversed", false: "forward"}[outReversed])
+				}
+				if rowsReversed != outReversed {
 					bad = orStr(bad, "a bar's own rows are collected in the opposite sense to the output loop's reversal: extended bars would be drawn upside down")
+				}
+				if !wr.CoversAll {
+					bad = orStr(bad, "not every row of a bar's frame is collected or drained")
 				}
 			}
 			r.Check(bad == "", "C06.O-PARITY", "heap order vs. output order", w.pos(fi.Fn.Pos()), "greater-first pops + reversed output + reversed per-bar collection", bad)
